@@ -536,6 +536,108 @@ Fixpoint respond_reads (r : raft) (rss : list (message * N)) : res raft :=
   | (req, idx) :: rest => do r <- respond_read_index r req idx; respond_reads r rest
   end.
 
+(* ---------- decoding the payload of a configuration-change entry ----------
+   The protobuf wire format of raftpb.ConfChange / raftpb.ConfChangeV2 as raft nodes marshal it
+   (varint and length-delimited fields only; the last occurrence of a scalar field wins). *)
+Fixpoint pb_varint (fuel : nat) (bs : list N) (shift acc : N) : option (N * list N) :=
+  match fuel, bs with
+  | S f, b :: rest =>
+      let acc := acc + (b mod 128) * 2 ^ shift in
+      if b <? 128 then Some (acc, rest) else pb_varint f rest (shift + 7) acc
+  | _, _ => None
+  end.
+
+Inductive pbval := PV (v : N) | PB (b : list N).
+
+Fixpoint pb_fields (fuel : nat) (bs : list N) : option (list (N * pbval)) :=
+  match fuel with
+  | O => None
+  | S f =>
+      match bs with
+      | [] => Some []
+      | _ =>
+          match pb_varint 10 bs 0 0 with
+          | None => None
+          | Some (key, rest) =>
+              let fld := key / 8 in
+              let w := key mod 8 in
+              if N.eqb w 0 then
+                match pb_varint 10 rest 0 0 with
+                | Some (v, rest') =>
+                    match pb_fields f rest' with Some l => Some ((fld, PV v) :: l) | None => None end
+                | None => None
+                end
+              else if N.eqb w 2 then
+                match pb_varint 10 rest 0 0 with
+                | Some (len, rest') =>
+                    if nlen rest' <? len then None else
+                    match pb_fields f (ndrop len rest') with
+                    | Some l => Some ((fld, PB (ntake len rest')) :: l)
+                    | None => None
+                    end
+                | None => None
+                end
+              else None
+          end
+      end
+  end.
+
+Definition pb_parse (bs : list N) : option (list (N * pbval)) := pb_fields (S (length bs)) bs.
+
+Fixpoint pb_scalar (fld : N) (l : list (N * pbval)) (acc : N) : N :=
+  match l with
+  | [] => acc
+  | (f, PV v) :: rest => pb_scalar fld rest (if N.eqb f fld then v else acc)
+  | _ :: rest => pb_scalar fld rest acc
+  end.
+
+Definition cc_type_of (v : N) : cc_type :=
+  if N.eqb v 0 then CCAddNode else if N.eqb v 1 then CCRemoveNode else
+  if N.eqb v 2 then CCUpdateNode else if N.eqb v 3 then CCAddLearnerNode else CCUnknown.
+
+Definition cc_transition_of (v : N) : cc_transition :=
+  if N.eqb v 1 then TransJointImplicit else if N.eqb v 2 then TransJointExplicit else TransAuto.
+
+Fixpoint pb_changes (l : list (N * pbval)) : option (list cc_single) :=
+  match l with
+  | [] => Some []
+  | (f, PB b) :: rest =>
+      if N.eqb f 2 then
+        match pb_parse b, pb_changes rest with
+        | Some fs, Some cs => Some (mkCCS (cc_type_of (pb_scalar 1 fs 0)) (pb_scalar 2 fs 0) :: cs)
+        | _, _ => None
+        end
+      else pb_changes rest
+  | _ :: rest => pb_changes rest
+  end.
+
+(* cc.AsV2() of the change carried by a configuration-change entry *)
+Definition decode_cc (e : entry) : option confchange_v2 :=
+  match e_type e with
+  | EntryNormal => None
+  | EntryConfChange =>
+      match pb_parse (e_data e) with
+      | Some fs => Some (mkCCV2 TransAuto [mkCCS (cc_type_of (pb_scalar 2 fs 0)) (pb_scalar 3 fs 0)])
+      | None => None
+      end
+  | EntryConfChangeV2 =>
+      match pb_parse (e_data e) with
+      | Some fs =>
+          match pb_changes fs with
+          | Some cs => Some (mkCCV2 (cc_transition_of (pb_scalar 1 fs 0)) cs)
+          | None => None
+          end
+      | None => None
+      end
+  end.
+
+(* checkConfChange: does the current configuration accept the change? (dry run of the Changer) *)
+Definition cc_accepted (r : raft) (li : N) (e : entry) : bool :=
+  match decode_cc e with
+  | Some cc => match apply_conf_change (r_trk r) li cc with inl _ => true | inr _ => false end
+  | None => true
+  end.
+
 (* the conf-change gate of stepLeader/MsgProp: returns the (possibly neutralised) entries *)
 Fixpoint prop_gate (r : raft) (li : N) (i : N) (es : list entry) : raft * list entry :=
   match es with
@@ -545,7 +647,8 @@ Fixpoint prop_gate (r : raft) (li : N) (i : N) (es : list entry) : raft * list e
         let alreadyPending := l_applied (r_log r) <? r_pending_conf_index r in
         let alreadyJoint := 0 <? nlen (c_outgoing (t_config (r_trk r))) in
         let wantsLeave := e_leave e in
-        let failed := alreadyPending || (alreadyJoint && negb wantsLeave) || (negb alreadyJoint && wantsLeave) in
+        let failed := alreadyPending || (alreadyJoint && negb wantsLeave) || (negb alreadyJoint && wantsLeave) ||
+                      negb (cc_accepted r li e) in
         if failed && negb (r_disable_cc_validation r) then
           let '(r', rest') := prop_gate r li (i + 1) rest in
           (r', mkEntry 0 0 EntryNormal true [] false false :: rest')
